@@ -213,7 +213,15 @@ class Rejection:
         return self.segment[: self.index + 1]
 
 
-def _validate_chunk(module_path, cfg, segs, tag, timeout, consts_env=None):
+def parse_coverage(out):
+    """-coverage 1 output: '<TrAddNode line 18, col 1 to line 18, col 9 of module M>: 68:68' -> {name: distinct}"""
+    cov = {}
+    for m in re.finditer(r"^<(\w+) line \d+, col \d+ to line \d+, col \d+ of module \w+>: (\d+):(\d+)", out, re.M):
+        cov[m.group(1)] = cov.get(m.group(1), 0) + int(m.group(2))
+    return cov
+
+
+def _validate_chunk(module_path, cfg, segs, tag, timeout, consts_env=None, coverage=False):
     """Validate a list of segments with one TLC run after another until all are
     explained or rejected.  Returns (accepted_count, [Rejection], states, wall, toolerr)."""
     accepted, rejs, states, wall = 0, [], 0, 0.0
@@ -227,7 +235,9 @@ def _validate_chunk(module_path, cfg, segs, tag, timeout, consts_env=None):
         env = {"TRACE": path}
         if consts_env:
             env.update(consts_env)
-        r = tlc(module_path, cfg, workers=1, timeout=timeout, env=env, tag=tag, heap="3g", deque=True)
+        r = tlc(module_path, cfg, workers=1, timeout=timeout, env=env, tag=tag, heap="3g", deque=True, coverage=coverage and n == 1)
+        if coverage and n == 1:
+            _validate_chunk.cov = parse_coverage(r.out)
         wall += r.wall
         states += r.distinct
         os.remove(path)
@@ -268,8 +278,11 @@ def validate_trace(module_path, cfg, events, tag, parallel=8, chunk_events=6000,
     if cur:
         chunks.append(cur)
     res = {"accepted": 0, "rejections": [], "states": 0, "segments": len(segs), "events": len(events), "tlc_wall": 0.0}
+    _validate_chunk.cov = {}
     with ThreadPoolExecutor(max_workers=parallel) as ex:
-        futs = [ex.submit(_validate_chunk, module_path, cfg, c, "%s%d" % (tag, i), timeout, consts_env) for i, c in enumerate(chunks)]
+        # the first chunk is also run with -coverage 1: per-action counts show which spec actions the
+        # recorded history exercised (an action that is never taken was never checked)
+        futs = [ex.submit(_validate_chunk, module_path, cfg, c, "%s%d" % (tag, i), timeout, consts_env, i == 0) for i, c in enumerate(chunks)]
         for f in futs:
             a, rj, st, w, err = f.result()
             if err:
@@ -278,6 +291,7 @@ def validate_trace(module_path, cfg, events, tag, parallel=8, chunk_events=6000,
             res["rejections"] += rj
             res["states"] += st
             res["tlc_wall"] += w
+    res["action_coverage"] = dict(_validate_chunk.cov)
     return res
 
 
@@ -379,6 +393,13 @@ class Run:
         return r
 
     def add_validation(self, name, res):
+        cov = res.get("action_coverage") or {}
+        if cov:
+            acc = self.extra.setdefault("action_coverage_first_chunk", {})
+            for k, v in cov.items():
+                if k.startswith("Tr"):
+                    acc[k] = acc.get(k, 0) + v
+            self.extra["uncovered_actions"] = sorted(k for k, v in acc.items() if v == 0)
         self.states += res["states"]
         self.transitions += res["events"]
         self.traces += res["accepted"]
